@@ -132,7 +132,7 @@ class Models:
                      "type", "reversed", "sorted", "tuple", "list", "str", "format", "iter",
                      "next", "map", "range", "zip", "enumerate", "all", "any", "bool", "repr",
                      "float", "issubclass", "getattr", "id", "callable", "builtin_sum", "dict",
-                     "set", "frozenset", "object", "filter", "hasattr"}
+                     "set", "frozenset", "object", "filter", "hasattr", "staticmethod"}
 
     def global_name(self, module, name, node):
         r = self.prog.resolve_global(module, name)
@@ -206,6 +206,10 @@ class Models:
             if nm == "cast":
                 return FuncV("cast")
             return OpaqueV(f"typing.{nm}")
+        if mod == "collections.abc":
+            return OpaqueV(f"typing.{nm}")
+        if mod == "collections" and nm == "abc":
+            return ModuleV("collections.abc")
         if mod == "types" and nm == "MappingProxyType":
             return FuncV("MappingProxyType")
         if mod == "builtins" and nm == "sum":
@@ -636,9 +640,15 @@ class Models:
             short = obj.name.split(".")[-1]
             if obj.name in self.prog.modules:
                 return self.global_name(self.prog.modules[obj.name], attr, node)
+            if obj.name in ("collections.abc", "typing") and attr[:1].isupper():
+                return OpaqueV(f"typing.{attr}")
+            if obj.name == "collections" and attr == "abc":
+                return ModuleV("collections.abc")
             return FuncV(f"{short}.{attr}")
         if isinstance(obj, FuncV) and obj.name == "itertools.chain" and attr == "from_iterable":
             return FuncV("itertools.chain.from_iterable")
+        if isinstance(obj, FuncV) and obj.name in ("collections.abc", "abc") and attr[:1].isupper():
+            return OpaqueV(f"typing.{attr}")        # the abstract collection classes, as used in isinstance tests
         if isinstance(obj, TypeV):
             if obj.name == "ROUNDING":
                 return EnumV("ROUNDING", attr)
